@@ -73,10 +73,17 @@ fn run_one(c: &Value) -> Value {
       }
     },
     "enc" => {
-      let cap = c["cap"].as_u64().unwrap() as usize;
+      let mut cap = c["cap"].as_u64().unwrap_or(4096) as usize;
       match msg_from_json(c) {
         None => json!({"r": "invalid"}),
         Some(m) => {
+          // "cap_rel": k — the buffer is k bytes longer (shorter) than the encoded line (measured in a large buffer)
+          if let Some(rel) = c.get("cap_rel").and_then(|v| v.as_i64()) {
+            let mut big = vec![0u8; 1 << 17];
+            if let Ok(Ok(n)) = catch_unwind(AssertUnwindSafe(|| serialize(&m, &mut big[..]))) {
+              cap = (n as i64 + rel).max(0) as usize;
+            }
+          }
           let enc = |m: &narwhal_protocol::Message| {
             let mut buf = vec![0u8; cap];
             catch_unwind(AssertUnwindSafe(|| serialize(m, &mut buf[..]).map(|n| buf[..n].to_vec())))
@@ -90,9 +97,9 @@ fn run_one(c: &Value) -> Value {
             _ => false,
           };
           match r1 {
-            Err(_) => json!({"r": "panic"}),
-            Ok(Err(SerializeError::MessageTooLarge)) => json!({"r": "toolarge", "det": same}),
-            Ok(Err(SerializeError::Other(e))) => json!({"r": "other", "msg": e.to_string(), "det": same}),
+            Err(_) => json!({"r": "panic", "cap": cap}),
+            Ok(Err(SerializeError::MessageTooLarge)) => json!({"r": "toolarge", "det": same, "cap": cap}),
+            Ok(Err(SerializeError::Other(e))) => json!({"r": "other", "msg": e.to_string(), "det": same, "cap": cap}),
             Ok(Ok(b)) => {
               // decode the encoded line again (without the trailing newline) on the implementation
               let line: &[u8] = if b.last() == Some(&b'\n') { &b[..b.len() - 1] } else { &b[..] };
@@ -108,7 +115,7 @@ fn run_one(c: &Value) -> Value {
                   }
                 },
               };
-              json!({"r": "ok", "bytes": hex(&b), "det": same, "rt": rt})
+              json!({"r": "ok", "bytes": hex(&b), "det": same, "rt": rt, "cap": cap})
             },
           }
         },
